@@ -41,6 +41,16 @@ def run(ctx: Ctx):
     _need(ctx, "C03-O7", "R16 PAIRED-EFFECTS", p2, "after the pivot the basis label and the basis set move together", ["matrix = _pivot(matrix, m, leave, enter, eps)\n        basis_set.discard(basis[leave])\n        basis[leave] = enter\n        basis_set.add(enter)"])
     pv = ctx.func("simplex", "_pivot")
     _need(ctx, "C03-O7", "R16 PAIRED-EFFECTS", pv, "pivot: the pivot row is scaled to a unit entry, every other row (objective row included) is cleared in the pivot column", ["inv = 1.0 / pivot_val\n    for j in range(n_cols):\n        matrix[row][j] *= inv", "for i in range(m + 1):\n        if i != row:\n            f = matrix[i][col]\n            if abs(f) > eps:\n                for j in range(n_cols):\n                    matrix[i][j] -= f * matrix[row][j]", "return matrix"])
+    # solve_lp gives no verdict of its own: every status it returns was computed by a phase (phase 1 decides
+    # feasibility before phase 2 may say UNBOUNDED)
+    slp = ctx.func("simplex", "solve_lp")
+    lits = []
+    for s_ in result_sites(slp):
+        st_ = s_.arg("status")
+        if st_ is not None and ast.unparse(st_).startswith("Status."):
+            lits.append(s_)
+    ctx.ob("C03-O1", "R3 STATUS-USE", slp, "solve_lp publishes no status literal of its own (statuses come from _phase1 / _phase2)", not lits, f"`{ast.unparse(lits[0].call)[:70]}`: a verdict decided before the phases ran skips the feasibility phase - an infeasible LP with an unlimited improving variable is called UNBOUNDED" if lits else "", node=lits[0].call if lits else slp.node)
+    _need(ctx, "C03-O7", "R16 PAIRED-EFFECTS", slp, "the tableau gets one slack column per row and the right-hand side last; phase 1 runs exactly when some right-hand side is negative, and phase 2 follows with the remaining budget", ["row = array('d', A[i])\n        row.extend([0.0] * m)\n        row[n + i] = 1.0\n        row.append(b[i])\n        matrix.append(row)", "obj = array('d', weights)\n    obj.extend([0.0] * (m + 1))\n    matrix.append(obj)", "basis = array('i', range(n, n + m))", "if any((matrix[i][-1] < -eps for i in range(m))):\n        status, iters, matrix, basis, basis_set = _phase1(matrix, basis, basis_set, m, n, eps, max_iter)", "max_iter -= iters", "status, iters2, matrix, basis, basis_set = _phase2(matrix, basis, basis_set, m, eps, max_iter)\n    return _extract(matrix, basis, m, n, status, iters + iters2, minimize)", "weights = list(c) if minimize else [-ci for ci in c]"])
     p1 = ctx.func("simplex", "_phase1")
     _need(ctx, "C03-O7", "R16 PAIRED-EFFECTS", p1, "after phase 1 every basic artificial is pivoted out over all structural and slack columns (every column that is not artificial), with its basis label", ["n_cols = len(matrix[0])\n    for i in range(m):\n        if basis[i] in art_cols:\n            for j in range(n_cols - 1 - len(art_cols)):\n                if j not in basis_set and abs(matrix[i][j]) > eps:\n                    matrix = _pivot(matrix, m, i, j, eps)\n                    basis_set.discard(basis[i])\n                    basis[i] = j\n                    basis_set.add(j)\n                    break"], "a scan that stops short of the last non-artificial column leaves an artificial basic; it is deleted with its column and phase 2 lets it grow")
     _need(ctx, "C03-O7", "R16 PAIRED-EFFECTS", p1, "the artificial objective is the sum of the artificial rows; afterwards the artificial columns are removed and the original objective is restored and priced out against the basis", ["for col in art_cols:\n        matrix[-1][col] = 1.0", "for i in range(m):\n        if basis[i] in art_cols:\n            for j in range(n_cols):\n                matrix[-1][j] -= matrix[i][j]", "for _ in art_cols:\n        for row in matrix:\n            del row[-2]", "matrix[-1] = orig_obj", "var = basis[i]\n        if var < n_cols - 1:\n            cost = matrix[-1][var]\n            if abs(cost) > eps:\n                for j in range(n_cols):\n                    matrix[-1][j] -= cost * matrix[i][j]"])
@@ -499,6 +509,11 @@ def _v_pivot_out_scan_short(tree):
     M.replace_expr(g, lambda e: M.src_is(e, "range(n_cols - 1 - len(art_cols))"), M.expr("range(n_cols - 1 - m)"))
 
 
+def _v_unbounded_precheck(tree):
+    g = M.find_func(tree, "solve_lp")
+    M.replace_stmt(g, lambda s: isinstance(s, ast.Assign) and M.src_is(s.targets[0], "matrix") and M.src_is(s.value, "[]"), lambda s: M.stmts("for j in range(n):\n    if weights[j] < -eps and all(A[i][j] <= eps for i in range(m)):\n        return Result(tuple([0.0] * n), 0.0, 0, 0, Status.UNBOUNDED)") + [s])
+
+
 def _v_ratio_rows_off_by_one(tree):
     g = M.find_func(tree, "_phase2")
     loops = [n for n in ast.walk(g) if isinstance(n, ast.For) and M.src_is(n.iter, "range(m)")]
@@ -560,6 +575,7 @@ VARIANTS = [
     M.Variant("Newton scaling divides by z[j] without the eps clamp", IP, _v_ip_divisor_unclamped, "C03-O6"),
     M.Variant("Mehrotra ratio divides by mu under `mu >= 0`", IP, _v_ip_ratio_unguarded, "C03-O6"),
     M.Variant("ratio test leaves the last constraint row out", SX, _v_ratio_rows_off_by_one, "C03-O7"),
+    M.Variant("solve_lp answers UNBOUNDED from a column pre-check, before feasibility is known (seed C03-G)", SX, _v_unbounded_precheck, "C03-O1"),
     M.Variant("phase-1 pivot-out scans n_cols - 1 - m columns instead of all non-artificial ones (seed C03-E)", SX, _v_pivot_out_scan_short, "C03-O7"),
     M.Variant("twin: reformat", SX, _t_reformat, None),
     M.Variant("twin: reformat interior", IP, _t_reformat, None),
